@@ -194,6 +194,11 @@ func charaterState(l *lexer) stateFn {
 		switch r {
 		case '\'':
 			value += "'"
+			// the closing quote of '\''
+			if r = l.next(); r != '\'' {
+				l.error("just can quote single char")
+				return nil
+			}
 			l.emitValue(Charater, value)
 		default:
 			l.error("not correct translate")
